@@ -177,6 +177,10 @@ impl ObjStreamP<'_> {
                 let err = ErrorKind::GuardError(msg);
                 return Err(locate_value(err, *ofs, buf.get_cursor()))
             }
+            // The object is located at its declared offset: skip
+            // whatever lies between the end of the previous object
+            // and that offset.
+            buf.set_cursor(*ofs)?;
             ws.parse(buf)?;
 
             let start = buf.get_cursor();
